@@ -32,6 +32,9 @@ type Prog struct {
 	specFuncs map[string]*SpecFunc
 	counts    map[string][]string // label -> callee keys
 	countOf   map[string][]string // callee key -> labels
+	globalInvs []*GlobalInv
+	prot      []int
+	protDone  bool
 	repoDir   string
 }
 
